@@ -292,3 +292,180 @@ def c17_e(ctx):
                   'entries of the first'.format(
                       attr, ' (adjust reads it by parameter index)' if attr in read_by_index
                       else ''), fn=fit, node=sites[0])
+
+
+@obligation('C17-f', 'T8 T1', 'fit / adjust wiring: what fit stores is what the accessors return '
+            'and what adjust uses; one model is fitted per (regressors, parameter) pair with '
+            'fit(X, y); the adjusted sample is returned', floor=10,
+            necessary='a model fitted with (y, X), a state field that is not stored, or a result '
+                      'that is not returned cannot be `accepted values minus slope times '
+                      '(simulated - observed)`')
+def c17_f(ctx):
+    from .base import bind_args
+    ra = ctx.cls(RA)
+    fit = ctx.own_method(ra, 'fit')
+    ex = ctx.ex(fit)
+    cfg = cfg_of(fit)
+    # (a) the state fit() leaves behind
+    want = {'self._sample': lambda v: v == ('param', 'sample'),
+            'self._parameter_names': lambda v: match_any(
+                v, ('parameter_names or sample.parameter_names',
+                    'sample.parameter_names if parameter_names is None else parameter_names',
+                    'parameter_names if parameter_names is not None else sample.parameter_names',
+                    'parameter_names if parameter_names else sample.parameter_names'))
+            is not None,
+            'self._fitted': lambda v: v == ('const', True)}
+    stores = {}
+    for field, good in sorted(want.items()):
+        st = [s for (s, t, k) in ctx.stores(fit, field) if isinstance(s, ast.Assign)]
+        ok = len(st) == 1 and good(ex.term(st[0].value)) and cfg.must_pass([ctx.node(fit, st[0])])
+        stores[field] = st
+        ctx.check(ok, fit, 'fit stores {}'.format(field), src(st[0])[:60] if st else field,
+                  'fit() does not store {} (the value given / the default) on every path'.format(
+                      field), fn=fit, node=st[0] if st else fit.node)
+    iv = ctx.calls(fit, 'self._input_variables(*_)')
+    ok = False
+    if len(iv) == 1:
+        callee = ra.lookup('_input_variables')
+        b = bind_args(iv[0], callee) if callee is not None else None
+        ok = b is not None and set(b) == {'model', 'sample', 'summary_names'} and \
+            all(ex.term(v) == ('param', k) for (k, v) in b.items())
+        xs = [s for (s, t, k) in ctx.stores(fit, 'self._X') if isinstance(s, ast.Assign)]
+        ok = ok and len(xs) == 1 and contains(ex.term(xs[0].value), 'self._input_variables(*_)') \
+            and cfg.must_pass([ctx.node(fit, xs[0])])
+    ctx.check(ok, fit, 'regressors from (model, sample, summary_names)',
+              'self._X = self._input_variables(model, sample, summary_names)',
+              'the regressors are not built from fit\'s own (model, sample, summary_names), each '
+              'in its own position', fn=fit, node=iv[0] if iv else fit.node)
+    # the fitted flag is set last: after the models exist
+    loops = [n for n in own_nodes(fit.node) if isinstance(n, ast.For)]
+    fl = stores.get('self._fitted') or []
+    ok = bool(loops) and bool(fl) and cfg.must_precede([cfg.by_stmt[id(loops[0])]],
+                                                       ctx.node(fit, fl[0]))
+    ctx.check(ok, fit, 'fitted flag set after the models exist', '_fitted = True last',
+              'the fitted flag is set before the models are fitted', fn=fit,
+              node=fl[0] if fl else fit.node)
+    # (b) one model per pair, appended in order
+    ok = False
+    app = []
+    if loops:
+        lo = loops[0]
+        it = ex.term(lo.iter, cfg.by_stmt[id(lo)])
+        app = [c for c in ast.walk(lo) if isinstance(c, ast.Call) and callee_name(c) == 'append'
+               and match(ex.term(c.func.value), pattern('self.regression_models')) is not None or
+               (isinstance(c, ast.Call) and callee_name(c) == 'append' and
+                isinstance(c.func.value, ast.Attribute) and
+                c.func.value.attr == 'regression_models')]
+        if len(app) == 1 and match(it, pattern('self._pairs()')) is not None and \
+                isinstance(lo.target, ast.Name):
+            a = app[0].args[0]
+            okc = isinstance(a, ast.Call) or True
+            t = ex.term(a)
+            m = match(t, pattern('self._fit1(*_p)'))
+            ok = m is not None and len(t[2]) == 1 and t[2][0][0] == 'starred' and \
+                t[2][0][1][0] == 'elem' and not any(
+                    isinstance(n, (ast.Break, ast.Continue, ast.Return)) for n in ast.walk(lo))
+            if not ok:
+                m2 = match(t, pattern('self._fit1(_a, _b)'))
+                ok = m2 is not None and m2['a'][0] == 'item' and m2['a'][2] == 0 and \
+                    m2['b'][0] == 'item' and m2['b'][2] == 1 and m2['a'][1] == m2['b'][1]
+    ctx.check(ok, fit, 'one model per (regressors, parameter) pair',
+              'for pair in self._pairs(): regression_models.append(self._fit1(*pair))',
+              'fit() does not append one fitted model per pair, in pair order', fn=fit,
+              node=app[0] if app else fit.node)
+    f1 = ra.lookup('_fit1')
+    if f1 is None:
+        raise AnchorMissing('RegressionAdjustment._fit1')
+    ctx.touch(f1)
+    ex1 = ctx.ex(f1)
+    rr = returns(f1)
+    falls = [p for (p, lab) in cfg_of(f1).ret.pred
+             if not (p.kind == 'stmt' and isinstance(p.ast, ast.Return))]
+    px, py = f1.params[1], f1.params[2]
+    ok = len(rr) == 1 and not falls and match(
+        ex1.term(rr[0].value),
+        pattern('self._regression_model(**self._model_kwargs).fit({}, {})'.format(px, py))) \
+        is not None
+    ctx.check(ok, f1, 'model fitted as fit(X, y) and returned',
+              'return self._regression_model(**self._model_kwargs).fit(X, y)',
+              'the regression model is not fitted with (regressors, parameter values) in that '
+              'order, or the fitted model is not returned', fn=f1, node=rr[0] if rr else f1.node)
+    # (c) the accessors return the fields fit() stored, after the fitted check
+    for prop, field in (('parameter_names', '_parameter_names'), ('sample', '_sample'),
+                        ('X', '_X')):
+        g = ra.methods.get(prop)
+        if g is None or not g.is_property:
+            raise AnchorMissing('RegressionAdjustment.{} property'.format(prop))
+        ctx.touch(g)
+        exg = ctx.ex(g)
+        rr = returns(g)
+        falls = [p for (p, lab) in cfg_of(g).ret.pred
+                 if not (p.kind == 'stmt' and isinstance(p.ast, ast.Return))]
+        ok = bool(rr) and not falls and all(
+            match(exg.term(r.value), pattern('self.' + field)) is not None for r in rr)
+        ctx.check(ok, g, 'accessor {} returns {}'.format(prop, field), 'return self.' + field,
+                  'the accessor {} does not return the field fit() stored'.format(prop), fn=g,
+                  node=rr[0] if rr else g.node)
+    cf = ra.lookup('_check_fitted')
+    if cf is not None:
+        ctx.touch(cf)
+        rs = ctx.stmts(cf, ast.Raise)
+        ok = bool(rs) and all(any(pol is False and match(t, pattern('self._fitted')) is not None
+                                  for (t, pol, _) in ctx.guards(cf, r)) for r in rs)
+        ctx.check(ok, cf, 'unfitted use refused', 'raise unless self._fitted',
+                  'the fitted check does not raise exactly when nothing has been fitted', fn=cf,
+                  node=rs[0] if rs else cf.node)
+    # (d) adjust() returns a Sample of the adjusted outputs under fit's parameter names
+    ad = ctx.own_method(ra, 'adjust')
+    exa = ctx.ex(ad)
+    rr = returns(ad)
+    falls = [p for (p, lab) in cfg_of(ad).ret.pred
+             if not (p.kind == 'stmt' and isinstance(p.ast, ast.Return))]
+    ok = len(rr) == 1 and not falls
+    if ok:
+        t = exa.term(rr[0].value)
+        ok = match_any(t, ('results.Sample(*_)', 'Sample(*_)', 'elfi.methods.results.Sample(*_)')) \
+            is not None
+        if ok:
+            kws = dict((k, v) for (k, v) in t[3] if k is not None)
+            ok = 'outputs' in kws and 'parameter_names' in kws and \
+                match_any(kws['parameter_names'], ('self._parameter_names',
+                                                   'self.parameter_names')) is not None
+            # the dict handed over is the one the loop fills
+            st = [n for n in own_nodes(ad.node) if isinstance(n, ast.Assign) and
+                  isinstance(n.targets[0], ast.Subscript) and
+                  contains(exa.term(n.value), 'self._adjust(*_)')]
+            ok = ok and bool(st) and isinstance(st[0].targets[0].value, ast.Name) and \
+                any(isinstance(k.value, ast.Name) and k.arg == 'outputs' and
+                    k.value.id == st[0].targets[0].value.id
+                    for c in ctx.calls(ad) for k in c.keywords) 
+    ctx.check(ok, ad, 'adjust returns the adjusted sample',
+              'return Sample(outputs=adjusted, parameter_names=...)',
+              'adjust() does not return a Sample built from the adjusted outputs and the fitted '
+              'parameter names', fn=ad, node=rr[0] if rr else ad.node)
+    # (e) adjust_posterior: fit with its own arguments, return the adjustment
+    ap = ctx.fn('elfi.methods.post_processing:adjust_posterior')
+    exp_ = ctx.ex(ap)
+    fc = [c for c in ctx.calls(ap, name='fit')]
+    ok = False
+    if len(fc) == 1:
+        b = bind_args(fc[0], fit)
+        ok = b is not None and set(b) == {'model', 'sample', 'summary_names', 'parameter_names'} \
+            and all(exp_.term(v) == ('param', k) for (k, v) in b.items())
+    ctx.check(ok, ap, 'adjust_posterior fits with its own arguments',
+              'adjustment.fit(model=model, sample=sample, parameter_names=..., summary_names=...)',
+              'adjust_posterior does not pass each of its arguments to fit() under its own name',
+              fn=ap, node=fc[0] if fc else ap.node)
+    rr = returns(ap)
+    falls = [p for (p, lab) in cfg_of(ap).ret.pred
+             if not (p.kind == 'stmt' and isinstance(p.ast, ast.Return))]
+    ok = len(rr) == 1 and not falls and callee_name(rr[0].value) == 'adjust' if rr and \
+        isinstance(rr[0].value, ast.Call) else False
+    if rr and not ok:
+        t = exp_.term(rr[0].value)
+        ok = not falls and t[0] == 'call' and t[1][0] == 'attr' and t[1][2] == 'adjust'
+    ok = ok and bool(fc) and bool(rr) and ctx.must_precede(ap, fc, rr[0])
+    ctx.check(ok, ap, 'adjust_posterior returns adjustment.adjust() after fitting',
+              'return adjustment.adjust()',
+              'adjust_posterior does not return the adjusted sample of the fitted adjustment',
+              fn=ap, node=rr[0] if rr else ap.node)
